@@ -183,6 +183,34 @@ theorem checkFactors_of_prod (o : Oracle σ) (os : σ) (n : Nat) (fs : List Nat)
     · exact Or.inl hcp
   · exact Or.inl hcp
 
+/-- under the contract the vector after a successful inner run multiplies to exactly `n` -/
+theorem factorRun_prod {o : Oracle σ} (hok : OracleOK o) {fuel n : Nat} {alg : Algo} {os : σ}
+    {s' : St σ} (h0 : n ≠ 0) (hrun : factorRun o fuel n alg os = .ok s') : s'.factors.prod = n := by
+  obtain ⟨new, hf, hp⟩ := factorImpl_mul hok alg fuel _ _ s' (trialDiv_cofactor_pos h0) hrun
+  rw [hf, List.prod_append, hp]
+  exact (trialDiv_spec n).1
+
+/-- **totality of the entry point** from totality of the inner run -/
+theorem factor_total_aux {o : Oracle σ} (hok : OracleOK o) (fuel n : Nat) (alg : Algo) (os : σ)
+    (hsel : SelectorPre alg n) (hfuel : bits n ≤ fuel) (hrho : alg = .rho → RhoNeverFails o) :
+    (∃ l, factor o fuel n alg os = .ok l ∧ l.prod = n) ∨ factor o fuel n alg os = .failure := by
+  rw [factor_eq]
+  split
+  · rename_i h0; exact Or.inl ⟨[0], rfl, by simp [h0]⟩
+  · rename_i h0
+    split
+    · exact Or.inr rfl
+    · have hle := trialDiv_cofactor_le h0
+      obtain ⟨s', hs'⟩ := factorImpl_total_aux hok alg hrho fuel (trialDiv n).1
+        (initSt os (trialDiv n).2) (trialDiv_cofactor_pos h0)
+        (Nat.le_trans (bits_le_of_le hle) hfuel) (hsel.mono hle)
+      have hrun : factorRun o fuel n alg os = .ok s' := hs'
+      rw [hrun]
+      have hprod := factorRun_prod hok h0 hrun
+      rcases checkFactors_of_prod o s'.os n s'.factors hprod with h | h
+      · exact Or.inl ⟨_, h, by rw [sortNat_prod, hprod]⟩
+      · exact Or.inr h
+
 /-- A successful `factor` call, unfolded: `n = 0` or an accepted size, a successful inner run
 whose vector (sorted) is the answer. -/
 theorem factor_ok {o : Oracle σ} {fuel n : Nat} {alg : Algo} {os : σ} {l : List Nat}
